@@ -314,6 +314,9 @@ func vk_Connect(fd int, sa syscall.Sockaddr) error {
 	if vk.connectImmediately {
 		// a connect that completes at once (unix sockets do)
 		f.edgeOut = true
+		if vk.onConnect != nil {
+			vk.onConnect(f)
+		}
 		return nil
 	}
 	f.connecting = true
